@@ -254,16 +254,19 @@ impl<M> Coop<M> {
     /// runnable thread, which will release the lock on its way to its next scheduling point. The
     /// decision depends only on simulator state, not on timing. Returns whether a rescue happened.
     pub fn try_rescue(&self) -> bool {
-        let mut g = self.inner.lock().unwrap_or_else(|e| e.into_inner());
-        if g.abort {
-            return false;
-        }
-        let cur = g.current;
-        if cur == NOBODY || g.states[cur] != TState::Runnable {
-            return false;
-        }
-        let tid = g.os_tids[cur];
+        // Look without holding the scheduler lock (the baton holder may be about to enter it).
+        let (cur, tid, steps) = {
+            let g = self.inner.lock().unwrap_or_else(|e| e.into_inner());
+            if g.abort || g.current == NOBODY || g.states[g.current] != TState::Runnable {
+                return false;
+            }
+            (g.current, g.os_tids[g.current], g.steps)
+        };
         if tid == 0 || !thread_sleeps(tid) {
+            return false;
+        }
+        let mut g = self.inner.lock().unwrap_or_else(|e| e.into_inner());
+        if g.abort || g.current != cur || g.steps != steps || g.states[cur] != TState::Runnable {
             return false;
         }
         let cand = (0..g.states.len()).filter(|t| *t != cur && g.states[*t] == TState::Runnable).max_by_key(|t| (g.preempted_at[*t], usize::MAX - *t));
@@ -416,6 +419,18 @@ fn thread_sleeps(tid: i32) -> bool {
         let sw = std::fs::read_to_string(format!("/proc/self/task/{tid}/status")).ok()?;
         let ctx: String = sw.lines().filter(|l| l.contains("ctxt_switches")).collect::<Vec<_>>().join(";");
         Some((state, ctx))
+    }
+    // Blocked in futex(2) (syscall 202 on x86-64), when the kernel lets us see it.
+    let in_futex = |tid: i32| -> Option<bool> {
+        let t = std::fs::read_to_string(format!("/proc/self/task/{tid}/syscall")).ok()?;
+        let first = t.split_whitespace().next()?;
+        if first == "running" {
+            return Some(false);
+        }
+        first.parse::<i64>().ok().map(|n| n == 202)
+    };
+    if in_futex(tid) == Some(false) {
+        return false;
     }
     let Some((s1, c1)) = probe(tid) else { return false };
     if s1 != 'S' && s1 != 'D' {
